@@ -188,7 +188,8 @@ def run(ctx):
              ("Fe Fe", {("Fe", 0, 0): 2}, None), ("Fe+2Fe", {("Fe", 0, 0): 3}, None), ("(Fe)2", {("Fe", 0, 0): 2}, None)]
     nfixed = len(fixed)
     cases = fixed + [gen.compound(depth=3 if k % 4 == 0 else 2) for k in range(n_valid)]
-    s_act = fsite(ctx, "formulas.formula_grammar.convert_element")
+    from .C12 import action_site
+    s_act = action_site(ctx, I, w, "convert_element")
     shown = 0
     for text, atoms, dens in cases:
         try:
@@ -246,7 +247,7 @@ def run(ctx):
                 nbad += 1
                 if shown < 5:
                     shown += 1
-                    ctx.fail("R5", f"density tag of {text!r}", f"{attr} = {I.getattr(f, attr)}, expected {dens[0]}", fsite(ctx, "formulas.formula_grammar.convert_compound"), witness=text)
+                    ctx.fail("R5", f"density tag of {text!r}", f"{attr} = {I.getattr(f, attr)}, expected {dens[0]}", action_site(ctx, I, w, "convert_compound"), witness=text)
                 continue
     ctx.check(nbad == 0, "R5", f"derivation sweep: atom counts, net charge and density of {len(cases)} strings of the documented grammar",
               f"{nbad} of {len(cases)} strings are read differently from what the grammar describes", site,
